@@ -9,6 +9,8 @@
    The hash is abstract: HB bits v stands for  b64url_nopad(sha<bits>(v.encode("ascii")))  as a text.
    Case files instantiate it with a finite table computed by the driver with hashlib/base64. *)
 From Verif Require Import Lib.Base Lib.PyStr Lib.PkceTy Gen.PkceTables.
+From Verif Require Lib.Qs.
+From Coq Require String.
 Open Scope N_scope.
 
 Definition is_ascii (s : pystr) : bool := forallb (fun c => c <? 128) s.
@@ -248,3 +250,113 @@ Definition chk_dflow (c : dflow_case) : bool :=
      | None, None => true
      | _, _ => false
      end.
+
+(* ---------------------------------------------------------------- the log-in page: interactive authentication
+   When the user has to authenticate (no session, prompt=login, max_age exceeded ...) process_request does not mint
+   the code.  Authorization.setup_auth -> authn_args_gather hands the authentication method
+        query = request.to_urlencoded()
+   (UserPassJinja2 puts it into the signed token of the log-in form); once the user has authenticated the application
+   rebuilds the request from it (example/flask_op/views.py::verify):
+        authz_request = AuthorizationRequest().from_urlencoded(auth_args["query"])
+        create_session(authz_request, ...);  authz_part2(request=authz_request, ...)
+   and the grant of the code records THAT request.  post_authn_parse ran before the page was shown, on the request
+   parse_request produced; nothing PKCE-related runs on the rebuilt one.
+
+   Message.to_urlencoded writes EVERY parameter the message holds, declared in the class's c_param or not: a str as it
+   is, a declared list of str through sp_sep_list_serializer (" ".join).  Message.from_urlencoded: parse_qs, then per
+   name: a declared list parameter through sp_sep_list_deserializer (split(" ")), anything else - declared single value
+   or extension parameter - the one value as it is.  code_challenge / code_challenge_method are extension parameters of
+   both AuthorizationRequest classes. *)
+Inductive pval := PvS (s : pystr) | PvL (l : list pystr).
+Definition rparams : Type := list (pystr * pval).
+Definition sp : N := 32.
+Module PkceKeys.
+  Import Coq.Strings.String.
+  Local Open Scope string_scope.
+  Definition k_cc : pystr := PS "code_challenge".
+  Definition k_ccm : pystr := PS "code_challenge_method".
+End PkceKeys.
+Export PkceKeys.
+
+Definition ser (v : pval) : pystr := match v with PvS s => s | PvL l => join [sp] l end.
+(* lists: the names the request class declares with a list type (scope, response_type, prompt, ...) *)
+Definition deser (lists : list pystr) (k v : pystr) : pval :=
+  if str_in k lists then PvL (split_c sp v) else PvS v.
+
+Definition wire (r : rparams) : list (pystr * pystr) := map (fun kv => (fst kv, ser (snd kv))) r.
+Definition to_query (r : rparams) : option pystr := Qs.urlencode (wire r).
+Definition from_query (lists : list pystr) (q : pystr) : res rparams :=
+  l <- Qs.parse_qsl q ;; Ok (map (fun kv => (fst kv, deser lists (fst kv) (snd kv))) l).
+(* request -> serialised query -> rebuilt request *)
+Definition resume (lists : list pystr) (r : rparams) : res rparams :=
+  match to_query r with
+  | None => Err UnicodeError
+  | Some q => from_query lists q
+  end.
+
+(* the PKCE pair a request holds, as the text the wire would carry *)
+Definition qpair (r : rparams) : pk := (option_map ser (assoc k_cc r), option_map ser (assoc k_ccm r)).
+
+(* the request parse_request hands to process_request: the other parameters and what post_authn_parse left of
+   the PKCE pair (st = authn_leg's result: the challenge if any, the method always) *)
+Definition held (others : rparams) (st : option pystr * pystr) : rparams :=
+  others ++ (match fst st with Some c => [(k_cc, PvS c)] | None => [] end) ++ [(k_ccm, PvS (snd st))].
+
+(* what the grant of the code minted after the log-in page records *)
+Definition recorded_i (cf : pkce_conf) (per_client : option bool) (d : delivery) (lists : list pystr) (others : rparams)
+  : res pk :=
+  st <- recorded_d cf per_client d ;; r' <- resume lists (held others st) ;; Ok (qpair r').
+
+(* post_token_parse on a stored request holding the pair p:
+     "code_challenge" in _authn_req -> verifier required -> _authn_req["code_challenge_method"] (KeyError when absent) *)
+Definition token_leg_q (HB : N -> pystr -> pystr) (p : pk) (cv tccm : option pystr) : res unit :=
+  match p with
+  | (None, _) => Ok tt
+  | (Some c, Some m) => token_leg HB (Some c, m) cv tccm
+  | (Some c, None) => match norm cv with None => Err (Refused 3) | Some _ => Err KeyError end
+  end.
+
+(* authorization request (any transport) -> log-in page -> request rebuilt from the page's query -> code -> token request.
+   AzRefused 98: the log-in page cannot be produced / read back. *)
+Definition flow_i (HB : N -> pystr -> pystr) (cf : pkce_conf) (per_client : option bool) (d : delivery)
+           (lists : list pystr) (others : rparams) (cv tccm : option pystr) : outcome :=
+  match recorded_d cf per_client d with
+  | Ok st =>
+      match resume lists (held others st) with
+      | Ok r' =>
+          match token_leg_q HB (qpair r') cv tccm with
+          | Ok _ => Tokens
+          | Err (Refused n) => TkRefused n
+          | Err e => TkRaised e
+          | Unmodelled => TkRaised TypeError
+          end
+      | _ => AzRefused 98
+      end
+  | Err (Refused n) => AzRefused n
+  | _ => AzRefused 0
+  end.
+
+(* one interactive flow:
+   (configured methods, global essential, per-client flag, delivery, list-typed parameter names of the request class,
+    the other parameters of the request, token-request code_verifier and code_challenge_method, hash table,
+    observed outcome,
+    observed pair in the query of the log-in page (None: no page was shown),
+    observed pair of the grant's stored authorization request when a code was issued) *)
+Definition iflow_case : Type :=
+  list pystr * bool * option bool * delivery * list pystr * rparams * option pystr * option pystr * hb_tab * outcome
+  * option pk * option pk.
+Definition page_pair (cf : pkce_conf) (ce : option bool) (d : delivery) : option pk :=
+  match recorded_d cf ce d with Ok st => Some (fst st, Some (snd st)) | _ => None end.
+Definition iflow_model (c : iflow_case) : outcome * option pk * option pk :=
+  let '(ms, g, ce, d, lists, others, cv, tccm, tab, _, _, _) := c in
+  let cf := mk_pkce_conf ms g in
+  (flow_i (hb_lookup tab) cf ce d lists others cv tccm,
+   page_pair cf ce d,
+   match recorded_i cf ce d lists others with Ok p => Some p | _ => None end).
+Definition pk_eqb (a b : pk) : bool := opt_str_eqb (fst a) (fst b) && opt_str_eqb (snd a) (snd b).
+Definition opt_pk_eqb (a b : option pk) : bool :=
+  match a, b with Some x, Some y => pk_eqb x y | None, None => true | _, _ => false end.
+Definition chk_iflow (c : iflow_case) : bool :=
+  let '(_, _, _, _, _, _, _, _, _, obs, obs_q, obs_r) := c in
+  let '(o, q, r) := iflow_model c in
+  outcome_eqb o obs && opt_pk_eqb q obs_q && opt_pk_eqb r obs_r.
